@@ -12,20 +12,28 @@ theorem C01_header_refs (k : Kind) (img : Img) (v : View) (h : wrapFromBytes k i
     RefOK img v.dosHeader ∧ RefOK img v.dosImage ∧ RefOK img v.ntHeaders ∧ RefOK img v.fileHeader ∧
     RefOK img v.optionalHeader ∧ RefOK img v.dataDirectory ∧ RefOK img v.sectionHeaders ∧
     RefOK img v.headersImage := by
-  sorry
+  obtain ⟨h1, h2, h3, h4, h5, h6, h7, h8, -⟩ := C07_header_refs_ok v.fmt k img v (wrap_ok_imp k img v h)
+  exact ⟨h1, h2, h3, h4, h5, h6, h7, h8⟩
 
 /-- every data directory entry and every section header the model decodes is read from inside the
 accepted buffer -/
 theorem C01_tables_inside (f : Fmt) (k : Kind) (img : Img) (v : View) (h : fromBytes f k img = .ok v) :
     (∀ i, i < numDataDirs f img.bytes → ntEnd f img.bytes + 8 * i + 8 ≤ img.bytes.size) ∧
     (∀ i, i < numberOfSections img.bytes → secTable img.bytes + 40 * i + 40 ≤ img.bytes.size) := by
-  sorry
+  obtain ⟨ha, -⟩ := (fromBytes_ok_iff _ _ _ _).1 h
+  unfold Accept at ha
+  dsimp only at ha
+  obtain ⟨-, -, -, -, -, -, -, -, -, -, hd, -, hsec, -⟩ := ha
+  simp only [ntEnd, numDataDirs, secTable, optOff]
+  constructor
+  · intro i hi; omega
+  · intro i hi; omega
 
 /-- `slice` / `read`, any view, any arguments: the result is inside the buffer and aligned as requested -/
 theorem C01_slice_read (f : Fmt) (k : Kind) (img : Img) (v : View) (hv : fromBytes f k img = .ok v)
     (a : Addr) (min align : Nat) (ha : match a with | .rva r => r < 4294967296 | .va x => x < v.fmt.vaLimit)
     (ref : Ref) (h : v.at a min align = .ok ref) : RefOK v.img ref := by
-  sorry
+  exact (C05_at_sound f k img v hv a min align ha ref h).1
 
 /-- typed reads hand out sub-ranges of what `slice`/`read` returned, with the alignment of their type -/
 theorem C01_typed (f : Fmt) (k : Kind) (img : Img) (v : View) (hv : fromBytes f k img = .ok v)
@@ -34,15 +42,59 @@ theorem C01_typed (f : Fmt) (k : Kind) (img : Img) (v : View) (hv : fromBytes f 
     (∀ size align len ref, v.dervaSlice a size align len = .ok ref → RefOK v.img ref) ∧
     (∀ size align s ref, 1 ≤ size → v.dervaSliceS a size align s = .ok ref → RefOK v.img ref) ∧
     (∀ ref, v.dervaCStr a = .ok ref → RefOK v.img ref) := by
-  sorry
+  refine ⟨?_, ?_, ?_, ?_⟩
+  · intro size align ref h
+    obtain ⟨s, hs, rfl⟩ := (C05_derva v a size align ref).1 h
+    obtain ⟨⟨hb, hal⟩, hm, hsa⟩ := C05_at_sound f k img v hv a size align ha s hs
+    rw [hsa] at hal
+    exact ⟨by simp only; omega, hal⟩
+  · intro size align len ref h
+    obtain ⟨-, s, hs, rfl⟩ := (C05_derva_slice v a size align len ref).1 h
+    obtain ⟨⟨hb, hal⟩, hm, hsa⟩ := C05_at_sound f k img v hv a (size * len) align ha s hs
+    rw [hsa] at hal
+    exact ⟨by simp only; omega, hal⟩
+  · intro size align sen ref hsz h
+    cases hat : v.at a 0 align with
+    | ok s =>
+      obtain ⟨n, rfl, hn, -⟩ := (C05_derva_slice_s v a size align sen hsz s hat).1 ref h
+      obtain ⟨⟨hb, hal⟩, -, hsa⟩ := C05_at_sound f k img v hv a 0 align ha s hat
+      rw [hsa] at hal
+      rw [Nat.succ_mul] at hn
+      exact ⟨by simp only; omega, hal⟩
+    | _ =>
+      unfold View.dervaSliceS View.dervaSliceF at h
+      rw [hat] at h
+      cases h
+  · intro ref h
+    cases hat : v.at a 0 1 with
+    | ok s =>
+      obtain ⟨⟨hb, -⟩, -, -⟩ := C05_at_sound f k img v hv a 0 1 ha s hat
+      unfold View.dervaCStr cstrFromBytes at h
+      rw [hat] at h
+      simp only at h
+      cases hf : findNul v.b s.off s.len 0 with
+      | none => rw [hf] at h; cases h
+      | some n =>
+        rw [hf] at h
+        cases h
+        obtain ⟨-, h2, -, -⟩ := findNul_some _ _ _ hf
+        exact ⟨by simp only; omega, Nat.mod_one _⟩
+    | _ =>
+      unfold View.dervaCStr at h
+      rw [hat] at h
+      cases h
 
 /-- `get_section_bytes` -/
 theorem C01_section_bytes (v : View) (s : Sec) (hs : s.InRange) (r : Ref) (h : v.sectionBytes s = .ok r) :
     RefOK v.img r := by
-  sorry
+  have := (C04_section_bytes v s hs r).1 h
+  obtain ⟨h1, h2, h3, h4⟩ := hs
+  unfold RefOK
+  cases hk : v.kind <;> rw [hk] at this <;> simp only at this <;> obtain ⟨-, -, hb, rfl⟩ := this <;>
+    exact ⟨hb, Nat.mod_one _⟩
 
 /-- no modelled operation of the core ever performs an unchecked out-of-range access -/
 theorem C01_no_ub (v : View) (a : Addr) (min align : Nat) (s : String) : v.at a min align ≠ .ub s := by
-  sorry
+  exact v.at_ne_ub a min align s
 
 end Pelite.Pe
